@@ -691,6 +691,9 @@ func runC18Template(l sx.List) (sx.SX, string) {
 	_ = nExisting
 	seen := map[string]bool{}
 	for _, n := range p.VariableNames() {
+		if n == "" && fail == "" {
+			fail = "the empty string is reported as a variable name"
+		}
 		k := strings.ToLower(n)
 		if seen[k] && fail == "" {
 			fail = "the name " + n + " is reported twice ignoring case"
